@@ -320,7 +320,18 @@ def unaryop(interp, op, v):
         if isinstance(v, SBool):
             raise eng.Unsupported("~ on python bool")
         if isinstance(v, SArr) and v.kind == "bool":
-            return arr_map(interp, v, lambda e: z3.Not(e), "bool")
+            # the same mask value always yields the same term for its negation, so that
+            # enumerations (np.where / boolean indexing) of it are shared
+            store = interp.ctx.__dict__.setdefault("_invert", {})
+            key = (v.a.get_id(), z3.simplify(v.n).get_id())
+            if key not in store:
+                r0 = arr_map(interp, v, lambda e: z3.Not(e), "bool")
+                store[key] = (r0.a, r0.n)
+            a_term, n_term = store[key]
+            r = SArr(n_term, a_term, "bool", dtype="bool")
+            r.birth = interp.ctx.stamp
+            r.not_of = v
+            return r
     raise eng.Unsupported(f"unary {op} on {type(v).__name__}")
 
 
@@ -399,6 +410,8 @@ def compare(interp, op, a, b):
 
 def generic_eq(interp, a, b):
     eng = _engine()
+    if getattr(a, "_pyvc_equal_any", False) or getattr(b, "_pyvc_equal_any", False):
+        return True      # ghost key declared by a contract to equal the key under test
     if a is None or b is None:
         if isinstance(a, SObj) and a.cls == "Optional":
             raise eng.Unsupported("Optional eq")
@@ -412,6 +425,8 @@ def generic_eq(interp, a, b):
         return wrap(And(*[p if isinstance(p, bool) else p.e for p in parts]))
     if isinstance(a, SObj) and isinstance(b, SObj):
         return a is b
+    if isinstance(a, (BytesOf, EncodedStr, SFmt)) or isinstance(b, (BytesOf, EncodedStr, SFmt)):
+        return token_eq(interp, a, b)
     if isinstance(a, SOpaque) and isinstance(b, SOpaque):
         return wrap(a.e == b.e)
     if isinstance(a, SBytes) and isinstance(b, SBytes):
@@ -882,9 +897,10 @@ def where_idx(interp, mask):
     Axiom N-WHERE: idx strictly increasing, in range, mask true exactly on
     its image; count = idx.n <= mask.n."""
     ctx = interp.ctx
-    cached = getattr(mask, "_where", None)
-    if cached is not None and cached[0] is mask._a and mask.base is None:
-        return cached[1]
+    wstore = ctx.__dict__.setdefault("_where", {})
+    wkey = (mask.a.get_id(), z3.simplify(mask.n).get_id()) if mask.base is None else None
+    if wkey is not None and wkey in wstore:
+        return wstore[wkey]
     axiom("N-WHERE")
     idx = ctx.arr("where", "int")
     m = mask
@@ -904,9 +920,9 @@ def where_idx(interp, mask):
     ctx.assume(z3.ForAll([j], z3.Implies(z3.And(j >= 0, j < m.n, m.sel(j)),
                                          z3.And(rank(j) >= 0, rank(j) < n,
                                                 idx.sel(rank(j)) == j))))
-    if mask.base is None:
-        mask._where = (mask._a, idx)
     idx.rank = rank
+    if wkey is not None:
+        wstore[wkey] = idx
     return idx
 
 
@@ -941,6 +957,19 @@ def setitem(interp, obj, key, v):
             obj[key] = v
         except Exception as ex:
             raise eng.PyRaise(type(ex), ex.args)
+        return None
+    if isinstance(obj, dict):
+        # key with symbolic parts: find an equal existing key (deciding equality), else insert
+        interp.heap_write(obj)
+        for k0 in list(obj.keys()):
+            r = compare(interp, "Eq", k0, key)
+            if ctx.decide(r if isinstance(r, bool) else r):
+                obj[k0] = v
+                return None
+        try:
+            obj[key] = v
+        except TypeError as ex:
+            raise eng.Unsupported(f"unhashable symbolic dict key: {ex}")
         return None
     if isinstance(obj, np.ndarray) and not eng._has_sym(key) and not eng._has_sym(v):
         interp.heap_write(obj)
@@ -981,6 +1010,9 @@ def arr_setitem(interp, obj, key, v):
     if isinstance(key, SArr) and key.kind == "bool":
         ctx.check(key.n == obj.n, "boolean index has the length of the array", kind="noraise-lib")
         if isinstance(v, SArr):
+            if v.kind != obj.kind:
+                from . import npmodel
+                v = npmodel.cast_arr(interp, v, obj.kind)
             idx = where_idx(interp, key)
             ctx.check(v.n == idx.n, "masked assignment: as many values as true entries",
                       kind="noraise-lib")
@@ -1137,6 +1169,9 @@ def sym_attr(interp, obj, name):
             return obj.dtype
         if name == "__class__":
             return list if getattr(obj, "is_list", False) else np.ndarray
+        if name == "flags":
+            o = interp.ctx.obj("ArrFlags", {"arr": obj, "writeable": obj.writeable})
+            return o
         m = ARR_METHODS.get(name)
         if m is not None:
             return eng.BoundModel(m, obj, name)
@@ -1148,6 +1183,8 @@ def sym_attr(interp, obj, name):
         m = STR_METHODS.get(name)
         if m is not None:
             return eng.BoundModel(m, obj, name)
+    if isinstance(obj, (SStr, SFmt)) and name == "encode":
+        return eng.BoundModel(_anystr_encode, obj, name)
     if isinstance(obj, eng.PyRaiseValue):
         if name == "args":
             return obj.args
@@ -1497,8 +1534,8 @@ def _str(interp, v=""):
         return str(v)
     if isinstance(v, SStr):
         return v
-    if isinstance(v, SInt):
-        return SFmt([v])
+    if isinstance(v, (SInt, SBool, SReal, SFmt)):
+        return SFmt([v]) if not isinstance(v, SFmt) else v
     raise eng.Unsupported(f"str() of {type(v).__name__}")
 
 
@@ -1535,8 +1572,14 @@ def fstring(interp, e, f):
             x = interp.eval(v.value, f)
             if v.format_spec is not None or v.conversion != -1:
                 parts.append(("fmt", x, _ast.unparse(v)))
+            elif isinstance(x, SFmt):
+                parts.extend(x.parts)            # nested formatted string: flatten
+            elif is_sym(x):
+                parts.append(x)
+            elif _engine()._has_sym(x):
+                parts.append(("struct", x))       # e.g. a shape tuple with symbolic entries
             else:
-                parts.append(x if is_sym(x) else str(x))
+                parts.append(str(x))
     # merge adjacent literals
     out = []
     for p in parts:
@@ -2099,3 +2142,171 @@ def _mktime_any(interp, st):
 
 _MODELS[_time.strptime] = _strptime_ostr
 _MODELS[_time.mktime] = _mktime_any
+
+
+# --------------------------------------------------------------------------
+# hashing: the digest is an injective function (A-HASH) of the *sequence of
+# update payloads*; whether the payloads are framed so that the concatenated
+# byte stream determines the sequence is a separate obligation of the contract
+# --------------------------------------------------------------------------
+import hashlib as _hashlib   # noqa: E402
+
+
+class BytesOf(Sym):
+    """the raw bytes of an array value (arr.view(np.uint8) / tobytes())"""
+
+    def __init__(self, arr):
+        self.arr = arr
+
+    def __repr__(self):
+        return f"BytesOf({self.arr!r})"
+
+
+class EncodedStr(Sym):
+    """s.encode('utf-8') of a (possibly structured / symbolic) string"""
+
+    def __init__(self, s):
+        self.s = s
+
+    def __repr__(self):
+        return f"EncodedStr({self.s!r})"
+
+
+@model(_hashlib.md5, _hashlib.sha256)
+def _md5(interp, *a, **k):
+    o = interp.ctx.obj("Hasher", {"stream": list(a)})
+    return o
+
+
+def _hasher_update(interp, h, data):
+    interp.heap_write(h)
+    if isinstance(data, SArr):
+        src = data
+        data = BytesOf(SArr(src.n, src.a, src.kind, dtype=src.dtype))
+        data.arr.item_shape = getattr(src, "item_shape", ())
+        data.arr.uid_src = getattr(src, "uid_src", src.uid)
+    h.fields["stream"].append(data)
+    return None
+
+
+def _hasher_hexdigest(interp, h):
+    axiom("A-HASH (the digest is injective on the sequence of update payloads)")
+    return ("digest",) + tuple(h.fields["stream"])
+
+
+def _anystr_encode(interp, s, *a, **k):
+    return EncodedStr(s)
+
+
+bytes_eq = z3.Function("bytes_eq", z3.IntSort(), z3.IntSort(), z3.BoolSort())   # by array uid
+
+
+def token_eq(interp, a, b):
+    """equality of hash-stream payloads"""
+    eng = _engine()
+    if isinstance(a, EncodedStr) and isinstance(b, EncodedStr):
+        return token_eq(interp, a.s, b.s)
+    if isinstance(a, BytesOf) and isinstance(b, BytesOf):
+        x, y = a.arr, b.arr
+        if x.kind != y.kind or len(getattr(x, "item_shape", ())) != len(getattr(y, "item_shape", ())):
+            # different element types: the raw bytes may or may not coincide (N-RAWBYTES)
+            axiom("N-RAWBYTES (raw bytes of arrays of different dtype/shape may coincide)")
+            return wrap(bytes_eq(Z(x.uid), Z(y.uid)))
+        k = z3.Int("k!be")
+        same = z3.And(x.n == y.n, z3.ForAll([k], z3.Implies(z3.And(k >= 0, k < x.n), x.sel(k) == y.sel(k))))
+        dx, dy = getattr(x, "dtype_sym", None), getattr(y, "dtype_sym", None)
+        if dx is not None and dy is not None:
+            axiom("N-RAWBYTES (raw bytes of arrays of different dtype/shape may coincide)")
+            # same dtype: bytes equal iff values equal; different dtype: unconstrained
+            be = bytes_eq(Z(x.uid), Z(y.uid))
+            interp.ctx.assume(z3.Implies(dx == dy, be == same))
+            return wrap(be)
+        return wrap(same)
+    if isinstance(a, (SFmt, str)) and isinstance(b, (SFmt, str)):
+        pa = a.parts if isinstance(a, SFmt) else [a]
+        pb = b.parts if isinstance(b, SFmt) else [b]
+        if len(pa) != len(pb):
+            raise eng.Unsupported("equality of differently structured strings")
+        conj = []
+        for u, v in zip(pa, pb):
+            if isinstance(u, str) and isinstance(v, str):
+                if u != v:
+                    return False
+                continue
+            if isinstance(u, str) or isinstance(v, str):
+                raise eng.Unsupported("equality of a literal and a formatted field")
+            r = compare(interp, "Eq", u, v)
+            if r is False:
+                return False
+            if r is not True:
+                conj.append(r.e)
+        return wrap(And(*conj)) if conj else True
+    return False
+
+
+itemsize_of = z3.Function("itemsize_of", z3.StringSort(), z3.IntSort())
+
+
+def bytes_len(b):
+    """number of bytes of a BytesOf / EncodedStr payload (z3 Int)"""
+    if isinstance(b, BytesOf):
+        dt = b.arr.dtype
+        size = np.dtype(dt).itemsize if dt is not None else 8
+        return b.arr.n * size
+    if isinstance(b, EncodedStr):
+        return z3.Int("blen!%d" % id(b))
+    raise _engine().Unsupported("length of " + type(b).__name__)
+
+
+_len_prev = _MODELS[len]
+
+
+def _len_tokens(interp, v):
+    if isinstance(v, (BytesOf, EncodedStr)):
+        r = wrap(bytes_len(v))
+        if isinstance(r, SInt):
+            r.len_of = v
+        return r
+    return _len_prev(interp, v)
+
+
+_MODELS[len] = _len_tokens
+
+
+@model(type)
+def _type(interp, v, *rest):
+    import types as _t
+    eng = _engine()
+    if rest:
+        raise eng.Unsupported("type() with three arguments")
+    if not is_sym(v):
+        return type(v)
+    if isinstance(v, SBool):
+        return bool
+    if isinstance(v, SInt):
+        return int
+    if isinstance(v, SReal) or isinstance(v, SF):
+        return float
+    if isinstance(v, (SStr, SFmt)):
+        return str
+    if isinstance(v, SArr):
+        return list if getattr(v, "is_list", False) else np.ndarray
+    if isinstance(v, SObj):
+        return _t.SimpleNamespace(__name__=v.clsname)
+    if isinstance(v, SOpaque) and v.pytype is not None and isinstance(v.pytype, type):
+        return v.pytype
+    raise eng.Unsupported("type() of " + type(v).__name__)
+
+
+@model(_pathlib.Path.stat)
+def _path_stat(interp, path, **kw):
+    """P-STAT: the stat record of a path is an unknown of the environment"""
+    ctx = interp.ctx
+    store = ctx.__dict__.setdefault("_stat", {})
+    key = str(path)
+    if key not in store:
+        o = ctx.obj("StatResult", {"st_mtime_ns": ctx.int("st_mtime_ns"), "st_size": ctx.int("st_size", lo=0),
+                                   "st_mtime": ctx.real("st_mtime"), "st_ino": ctx.int("st_ino")})
+        o.closed = True
+        store[key] = o
+    return store[key]
